@@ -1,6 +1,7 @@
 package main
 
 import (
+	"strings"
 	"golang.org/x/tools/go/ssa"
 )
 
@@ -205,4 +206,66 @@ func VariadicElems(ci ssa.CallInstruction) []ssa.Value {
 	}
 	els, _ := varargElems(args[len(args)-1])
 	return els
+}
+
+// ParamWrite is a write into memory reachable from a parameter.
+type ParamWrite struct {
+	Instr ssa.Instruction
+	What  string
+}
+
+// WritesThroughParam lists the instructions of fn (and of the module functions it calls statically, to the given
+// depth, with the argument flow followed) that store into memory derived from parameter idx: stores through
+// its fields / elements, and calls of the standard in-place mutators (sort, slices.Sort*, slices.Reverse, copy)
+// on such memory.
+func (e *Eng) WritesThroughParam(fn *ssa.Function, idx int, depth int) []ParamWrite {
+	var out []ParamWrite
+	if idx >= len(fn.Params) {
+		return out
+	}
+	root := fn.Params[idx]
+	derives := func(v ssa.Value) bool {
+		return e.DerivesFrom(v, false, func(x ssa.Value) bool { return x == ssa.Value(root) })
+	}
+	mutators := map[string]int{"sort.Slice": 0, "sort.SliceStable": 0, "sort.Sort": 0, "sort.Stable": 0, "sort.Strings": 0, "sort.Ints": 0,
+		"slices.Sort": 0, "slices.SortFunc": 0, "slices.SortStableFunc": 0, "slices.Reverse": 0}
+	for _, in := range AllInstrs(fn) {
+		switch x := in.(type) {
+		case *ssa.Store:
+			switch x.Addr.(type) {
+			case *ssa.FieldAddr, *ssa.IndexAddr:
+				if derives(x.Addr) {
+					out = append(out, ParamWrite{in, "store to " + e.X(fn, x.Addr)})
+				}
+			}
+		case *ssa.MapUpdate:
+			if derives(x.Map) {
+				out = append(out, ParamWrite{in, "map write to " + e.X(fn, x.Map)})
+			}
+		case *ssa.Call:
+			cn := calleeName(&x.Call)
+			if b, ok := x.Call.Value.(*ssa.Builtin); ok {
+				if (b.Name() == "copy" || b.Name() == "clear" || b.Name() == "delete") && len(x.Call.Args) > 0 && derives(x.Call.Args[0]) {
+					out = append(out, ParamWrite{in, b.Name() + " on " + e.X(fn, x.Call.Args[0])})
+				}
+				continue
+			}
+			if ai, ok := mutators[cn]; ok && ai < len(x.Call.Args) && derives(x.Call.Args[ai]) {
+				out = append(out, ParamWrite{in, cn + " on " + e.X(fn, x.Call.Args[ai])})
+				continue
+			}
+			if depth > 0 {
+				if c := x.Call.StaticCallee(); c != nil && strings.HasPrefix(fnPkgPath(c), Mod) && len(c.Blocks) > 0 {
+					for ai, a := range x.Call.Args {
+						if derives(a) && ai < len(c.Params) {
+							for _, w := range e.WritesThroughParam(c, ai, depth-1) {
+								out = append(out, ParamWrite{w.Instr, w.What + " (via " + fnName(c) + ")"})
+							}
+						}
+					}
+				}
+			}
+		}
+	}
+	return out
 }
